@@ -144,10 +144,10 @@ impl<'a> TypingContext<'a> {
   }
 
   fn is_subtype_with_id_upper(&self, lower: &Type, upper: &NominalType) -> bool {
-    let interface_type = if let Some(t) = self.nominal_type_upper_bound(lower) {
-      t
-    } else {
-      return false;
+    // The class itself (`Foo` as a value) is not an instance of `Foo` and implements nothing.
+    let interface_type = match self.nominal_type_upper_bound(lower) {
+      Some(t) if !t.is_class_statics => t,
+      _ => return false,
     };
     vec![interface_type]
       .into_iter()
